@@ -30,6 +30,13 @@
 #include <AIToolbox/Factored/Bandit/Policies/RandomPolicy.hpp>
 #include <AIToolbox/Factored/Bandit/Policies/SingleActionPolicy.hpp>
 #include <AIToolbox/Factored/Utils/Core.hpp>
+#include <AIToolbox/Factored/Bandit/Experience.hpp>
+#include <AIToolbox/Factored/Bandit/Policies/LLRPolicy.hpp>
+#include <AIToolbox/Factored/Bandit/Policies/MAUCEPolicy.hpp>
+#include <AIToolbox/Factored/Bandit/Policies/ThompsonSamplingPolicy.hpp>
+#include <AIToolbox/Factored/MDP/Policies/QGreedyPolicy.hpp>
+#include <AIToolbox/Factored/MDP/Policies/EpsilonPolicy.hpp>
+#include <AIToolbox/Factored/MDP/Policies/BanditPolicyAdaptor.hpp>
 #include <thread>
 #include <atomic>
 #include <chrono>
@@ -41,6 +48,7 @@ namespace B = AIToolbox::Bandit;
 namespace M = AIToolbox::MDP;
 namespace F = AIToolbox::Factored;
 namespace FB = AIToolbox::Factored::Bandit;
+namespace FM = AIToolbox::Factored::MDP;
 
 // ---- access to the policy's own engine (protected `rand_` of the common virtual base)
 template <class P> struct Peek : P {
@@ -458,6 +466,131 @@ static void emit_factored(Rng & rng) {
     line("Factored::Bandit::SingleActionPolicy", sp.sampleAction(), false);
 }
 
+// ---- TopTwoThompson / T3C selection kernels: the inner ThompsonSamplingPolicy is private; a shadow constructed with the same
+// seed (the 2nd value the Seeder hands out after reseed()) answers exactly what the inner one will answer.
+static void emit_toptwo(const B::Experience & exp, double beta, int reps) {
+    reseed();
+    B::TopTwoThompsonSamplingPolicy p(exp, beta); size_t n = p.getA();
+    AI::Seeder::setRootSeed(g_root); (void)AI::Seeder::getSeed();
+    B::ThompsonSamplingPolicy shadow(exp);
+    for (int i = 0; i < reps; ++i) {
+        const int K = 24;
+        Line l; l << "C09" << "toptwo" << "TopTwoThompsonSamplingPolicy" << n;
+        for (size_t a = 0; a < n; ++a) l << (size_t)exp.getVisitsTable()[a];
+        l << beta << peekU(eng(p)) << K;
+        { B::ThompsonSamplingPolicy peek(shadow); for (int k = 0; k < K; ++k) l << peek.sampleAction(); }
+        // run the real one and advance the shadow by as many answers as the real one consumed
+        size_t act = p.sampleAction();
+        size_t b = shadow.sampleAction();
+        if (exp.getVisitsTable()[b] >= 2 && act != b) { int guard = 0; while (shadow.sampleAction() == b && ++guard < 100000) {} }
+        l << "|" << act; l.emit();
+    }
+}
+static void emit_t3c(const B::Experience & exp, double beta, double var, int reps) {
+    reseed();
+    B::T3CPolicy p(exp, beta, var); size_t n = p.getA();
+    AI::Seeder::setRootSeed(g_root); (void)AI::Seeder::getSeed();
+    B::ThompsonSamplingPolicy shadow(exp);
+    for (int i = 0; i < reps; ++i) {
+        size_t best = shadow.sampleAction();
+        Line l; l << "C09" << "t3c" << "T3CPolicy" << n;
+        for (size_t a = 0; a < n; ++a) l << (size_t)exp.getVisitsTable()[a];
+        putRow(l, vecOf(exp.getRewardMatrix())); l << var << beta << best;
+        { AI::RandomEngine c = eng(p); l << AI::probabilityDistribution(c); l << 6; for (int k = 0; k < 6; ++k) l << AI::probabilityDistribution(c); }
+        l << "|" << p.sampleAction(); l.emit();
+    }
+}
+
+// ---- factored policies that maximise a sum of local payoff tables: joint action in range and optimal by brute force
+struct LocalRule { F::PartialKeys keys; F::PartialValues vals; double value; };
+static void fjoint_line(const char * comp, const F::Action & A, const std::vector<LocalRule> & rules, const F::Action & act) {
+    Line l; l << "C09" << "fjoint" << comp << (size_t)A.size(); for (auto a : A) l << a; l << (size_t)rules.size();
+    for (auto & r : rules) { l << (size_t)r.keys.size(); for (auto k : r.keys) l << k; for (auto v : r.vals) l << v; l << r.value; }
+    l << "|"; for (auto a : act) l << a; l.emit();
+}
+static FB::Experience makeFExp(Rng & rng, const F::Action & A, const std::vector<F::PartialKeys> & deps, bool visitAll, double centre) {
+    FB::Experience exp(A, deps);
+    F::Rewards rew(deps.size());
+    auto rec = [&](const F::Action & a) { for (size_t i = 0; i < deps.size(); ++i) rew[i] = centre + (double)rng.range(-8, 8) / 4.0; exp.record(a, rew); };
+    if (visitAll) { F::PartialFactorsEnumerator e(A); while (e.isValid()) { F::Action a = (*e).second; rec(a); rec(a); e.advance(); } }
+    int extra = (int)rng.range(0, 12);
+    for (int t = 0; t < extra; ++t) { F::Action a(A.size()); for (size_t i = 0; i < A.size(); ++i) a[i] = rng.below(A[i]); rec(a); }
+    return exp;
+}
+static void emit_factored_learners(Rng & rng) {
+    size_t m = (size_t)rng.range(2, 4);
+    F::Action A(m); for (auto & a : A) a = (size_t)rng.range(2, 3);
+    std::vector<F::PartialKeys> deps; for (size_t i = 0; i + 1 < m; ++i) deps.push_back({i, i + 1});
+    if (m == 2 && rng.coin()) deps = {{0}, {1}};
+    bool visitAll = rng.coin(3, 4);
+    auto exp = makeFExp(rng, A, deps, visitAll, rng.coin() ? 3.0 : -3.0);
+    if (exp.getTimesteps() == 0) return;
+    const auto & q = exp.getRewardMatrix(); const auto & c = exp.getVisitsTable(); const auto & M2 = exp.getM2Matrix();
+    {   // LLR: upper confidence values, same expressions as the library
+        reseed();
+        FB::LLRPolicy p(exp);
+        std::vector<LocalRule> rules;
+        const auto LtLog = (1 + 1) * std::log(exp.getTimesteps());
+        for (size_t x = 0; x < q.bases.size(); ++x)
+            for (size_t y = 0; y < (size_t)q.bases[x].values.size(); ++y) {
+                double val = c[x][y] == 0 ? std::numeric_limits<double>::max() / q.bases.size() : q.bases[x].values(y) + std::sqrt(LtLog / c[x][y]);
+                rules.push_back({q.bases[x].tag, F::toFactorsPartial(q.bases[x].tag, A, y), val});
+            }
+        fjoint_line("Factored::Bandit::LLRPolicy", A, rules, p.sampleAction());
+    }
+    {   // factored Thompson: the posterior draws from a copy of the policy's engine, same order and expressions as setupGraph
+        reseed();
+        FB::ThompsonSamplingPolicy p(exp);
+        for (int rep = 0; rep < 2; ++rep) {
+            AI::RandomEngine rnd = eng(p);
+            std::vector<LocalRule> rules;
+            for (size_t i = 0; i < q.bases.size(); ++i)
+                for (size_t y = 0; y < (size_t)q.bases[i].values.size(); ++y) {
+                    double val;
+                    const auto & counts = c[i]; const auto & m2 = M2[i];
+                    if (counts[y] < 2) val = std::numeric_limits<double>::max() / q.bases.size();
+                    else { std::student_t_distribution<double> dist(counts[y] - 1); val = q.bases[i].values[y] + dist(rnd) * std::sqrt(m2[y] / (counts[y] * (counts[y] - 1))); }
+                    rules.push_back({q.bases[i].tag, F::toFactorsPartial(q.bases[i].tag, A, y), val});
+                }
+            fjoint_line("Factored::Bandit::ThompsonSamplingPolicy", A, rules, p.sampleAction());
+        }
+    }
+    {   // MAUCE: range only (its objective is a vector-valued bound handled by UCVE, property C13)
+        reseed();
+        FB::MAUCEPolicy p(exp, std::vector<double>(deps.size(), 4.0));
+        auto act = p.sampleAction();
+        Line l; l << "C09" << "joint" << "Factored::Bandit::MAUCEPolicy" << m; for (auto a : A) l << a; for (auto a : act) l << a; l << false << 0.0 << 0.0; l.emit();
+    }
+    {   // Factored::MDP wrappers over Q-function rules that depend on the state
+        reseed();
+        F::State S(2); S[0] = 2; S[1] = (size_t)rng.range(2, 3);
+        std::vector<FM::QFunctionRule> qr;
+        for (size_t i = 0; i + 1 < m; ++i) for (size_t sv = 0; sv < S[i % 2]; ++sv)
+            for (size_t x = 0; x < A[i]; ++x) for (size_t y = 0; y < A[i + 1]; ++y)
+                if (rng.coin(3, 4)) qr.push_back(FM::QFunctionRule{F::PartialState{{i % 2}, {sv}}, F::PartialAction{{i, i + 1}, {x, y}}, (double)rng.range(-16, 16) / 4.0});
+        F::FilterMap<FM::QFunctionRule> fm(S);
+        for (auto & r : qr) fm.emplace(r.state, r);
+        FM::QGreedyPolicy<> g(S, A, fm);
+        FM::EpsilonPolicy e0(g, 0.0), e1(g, 1.0);
+        FM::BanditPolicyAdaptor<FB::RandomPolicy> ad(S, A);
+        F::PartialFactorsEnumerator se(S);
+        while (se.isValid()) {
+            F::State s = (*se).second;
+            std::vector<LocalRule> rules;
+            for (auto & r : qr) if (F::match(s, r.state)) rules.push_back({r.action.first, r.action.second, r.value});
+            fjoint_line("Factored::MDP::QGreedyPolicy", A, rules, g.sampleAction(s));
+            fjoint_line("Factored::MDP::EpsilonPolicy", A, rules, e0.sampleAction(s));
+            for (int i = 0; i < 2; ++i) {
+                auto act = e1.sampleAction(s);
+                Line l; l << "C09" << "joint" << "Factored::MDP::EpsilonPolicy" << m; for (auto a : A) l << a; for (auto a : act) l << a; l << false << 0.0 << 0.0; l.emit();
+                auto act2 = ad.sampleAction(s);
+                Line l2; l2 << "C09" << "joint" << "Factored::MDP::BanditPolicyAdaptor" << m; for (auto a : A) l2 << a; for (auto a : act2) l2 << a; l2 << false << 0.0 << 0.0; l2.emit();
+            }
+            se.advance();
+        }
+    }
+}
+
 // ---------------------------------------------------------------------------------------------------
 static const double kT[] = {0.0, 1e-7, 0.25, 0.5, 1.0, 2.0, 3.0, 0.1};
 static const double kEps[] = {0.0, 1.0, 0.5, 0.125, 0.1, 0.3};
@@ -536,6 +669,12 @@ void verif::verif_case(Rng & rng, long idx, const std::string & tier) {
                auto e2 = makeExp(r2, nn, centre, 0.5, unv, c);
                emit_thompson_shift("ThompsonSamplingPolicy", nn, c, 6,
                    [&]() { return std::make_unique<B::ThompsonSamplingPolicy>(e); }, [&]() { return std::make_unique<B::ThompsonSamplingPolicy>(e2); });
+               {   // TopTwo / T3C kernels on a positive-reward experience (keeps TopTwo's rejection loop short), ties included
+                   Rng r4 = rng; auto ek = makeExp(r4, nn, 12.0, 0.5, rng.coin(1, 5), 0.0);
+                   if (rng.coin(1, 3)) { B::Experience et(nn); for (size_t a = 0; a < nn; ++a) { et.record(a, a == 0 ? 2.0 : 1.0); et.record(a, a == 0 ? 2.5 : 1.5); } ek = et; }   // equal challengers: tie coins
+                   emit_toptwo(ek, kEps[rng.below(6)], 3);
+                   emit_t3c(ek, kEps[rng.below(6)], rng.coin() ? 1.0 : 0.5, 3);
+               }
                if ((idx / 14) % 4 == 0) {
                    // Monte-Carlo tables (positive rewards only for TopTwo: its rejection loop needs a second arm to ever win)
                    Rng r3 = rng; auto ep = makeExp(r3, nn, 12.0, 2.0, false, 0.0);
@@ -549,7 +688,7 @@ void verif::verif_case(Rng & rng, long idx, const std::string & tier) {
                emit_esrl(rng, nn, a, (unsigned)rng.range(1, 6), (unsigned)rng.range(0, 4), (unsigned)rng.range(1, 5), (int)rng.range(0, th ? 120 : 40));
                emit_sr(rng, nn, (unsigned)rng.range((long)nn * 2, (long)nn * 12), (int)rng.range(0, th ? 150 : 60));
                break; }
-    case 13: emit_factored(rng); break;
+    case 13: if ((idx / 14) % 2 == 0) emit_factored(rng); else emit_factored_learners(rng); break;
     }
 }
 
